@@ -23,7 +23,7 @@ RULE = ('A case is a pair (p, q) of repo patterns built from one O1 term e (or f
 ASSUMPTIONS = ['notation definitions that contain deferred substitutions are not folded (none of the shipped ones does)']
 FLOORS = {'quick': {'pairs': 5000, 'depth1': 300, 'depth2': 300, 'depth3': 200, 'depth4': 30, 'op:eq': 5000, 'op:evar_is_free': 5000, 'op:metavars': 2000,
                     'op:apply_esubst': 2000, 'op:apply_ssubst': 2000, 'op:instantiate': 2000, 'op:match_single_pat': 1000,
-                    'op:match_single_inst': 1000, 'op:unwrap': 2000, 'op:deconstruct': 2000, 'op:deconstruct_nary': 2000, 'op:deconstruct_nary_spine>=2': 100, 'op:matches': 2000, 'near_miss_pairs': 1000,
+                    'op:match_single_inst': 1000, 'op:unwrap': 2000, 'op:deconstruct': 2000, 'op:deconstruct_nary': 2000, 'substitution_headed_notation_with_implies_or_app_head': 500, 'op:deconstruct_nary_spine>=2': 100, 'op:matches': 2000, 'near_miss_pairs': 1000,
                     'equal_pairs_different_spelling': 1000, 'transitivity_triples': 500}}
 FLOORS['thorough'] = dict(FLOORS['quick'], pairs=200000)
 
@@ -38,6 +38,10 @@ def shard(ctx):
     T = rp.table()
     npairs = ctx.scale(96000, 1200000)
     plug_pool = gp.concrete_pool(rng, 60, 2, syms=('a', 'b'))
+    global SUBST_HEADED
+    SUBST_HEADED = [P.Notation('syn_esub', 2, P.ESubst(P.MetaVar(0), P.EVar(0), P.MetaVar(1)), 'esub({0}, {1})'),
+                    P.Notation('syn_ssub', 2, P.SSubst(P.MetaVar(0), P.SVar(0), P.MetaVar(1)), 'ssub({0}, {1})'),
+                    P.Notation('syn_esub1', 2, P.ESubst(P.MetaVar(0), P.EVar(1), P.MetaVar(1)), 'esub1({0}, {1})')]
 
     def viol(mech, summary, **w):
         ctx.violation(mech, summary, {k: (str(v) if not isinstance(v, (str, int, list, dict, type(None))) else v) for k, v in w.items()})
@@ -50,6 +54,22 @@ def shard(ctx):
         st = {}
         p = rp.fold(e, rng, p=0.8, stats=st)
         q = rp.fold(e, rng, p=rng.choice((0.3, 0.6, 0.9)))
+        if rng.random() < 0.06:
+            # a notation whose DEFINITION is a pending substitution on a metavariable: the head constructor of an application is only
+            # known after the substitution has been carried out on the argument
+            nt = rng.choice(SUBST_HEADED)
+            a0 = rp.rand_term(rng, rng.randint(1, 2), meta=rng.random() < 0.3, notation=0.3, substs=False, constrained=0.0)
+            a1 = rp.rand_term(rng, rng.randint(0, 1), meta=False, notation=0.0, substs=False)
+            cand = nt(rp.fold(a0, rng, 0.5), rp.fold(a1, rng, 0.3))
+            try:
+                e_c = tb.of_repo(cand, 'strict')
+                p, q, e = cand, cand, e_c
+                st = {}
+                ctx.count('substitution_headed_notation_applications')
+                if e_c[0] in ('im', 'ap'):
+                    ctx.count('substitution_headed_notation_with_implies_or_app_head')
+            except tb.Undefined:
+                pass
         er = tb.to_repo(e, P)
         nd = rp.arg_layers(p)
         ctx.count('pairs')
